@@ -6,6 +6,20 @@ ENGINES = [
 ]
 NOTES = 'All checks: ./check <ID> [--tier quick|thorough] [--replay FILE]; exit 0 held / 1 violation / 2 harness problem or inconclusive. See DESIGN.md.'
 CHECKS = {
+ 'C09': {
+  'engine': 'simrun (Hypothesis, seeded real RNG)',
+  'technique': 'Hypothesis over the 11 single-neighbour simulators with full data; two-directional validity predicate of the transmission list against node histories and the network (causality + completeness + forest)',
+  'design_ref': 'DESIGN.md section 3 C09',
+  'text': 'Every recorded (t,u,v) must follow an edge (in direction), from a node whose history says it has the infectious/inducing status at t to a node that had the from-status and changes at t (t+1 in discrete time); conversely every neighbour-induced change after tmin needs exactly one entry; None sources only for initially infected nodes; SIR transmission trees are forests rooted in I0.',
+  'note': 'Induced moves of the generic simulator are read from the specification; discrete-time horizons whole or infinite.',
+ },
+ 'C10': {
+  'engine': 'simrun (Hypothesis, seeded real RNG)',
+  'technique': 'differential: same-seed arrays vs full-data summary; model-based: node_status/get_statuses/summary(nodelist) vs naive scan over the node histories at generated query times',
+  'design_ref': 'DESIGN.md section 3 C10',
+  'text': 'Each generated case runs twice with identical seeds; summary()/t()/S()/I()/R() must equal the arrays (continuous time) or every array row must equal the counts of get_statuses at its time (discrete time, deterministic rule); histories start at tmin with the initial status, are ordered and legal; status queries at generated times (change times, just after, beyond the end) and subset summaries must equal a naive last-change scan.',
+  'note': 'Relies on both modes consuming the same draws (C18). Scripted ties collapse in the summary by design and are compared after collapsing.',
+ },
  'C05': {
   'engine': 'simrun (Hypothesis, seeded real RNG)',
   'technique': 'Hypothesis over simulators x initial-set passing forms (containers, single node, positional) with metamorphic equality across forms and a direct oracle for row 0 / statuses at tmin / rho counts / EoNError',
